@@ -8,6 +8,8 @@
         child:  L [A 0; s] str | L [A 1; s] HTML | L [A 2; s] repr object | L [A 3; t] tag
                 | L [A 4; k] tagifiable | L [A 5; k] metadata
         stmt:   L [A 0; dval] display | L [A 1; t; L body] with | L [A 2] raise
+        the program is a list of top-level items: a stmt, or L [A 3; src; dst] = bind a copy of tag src
+        as tag dst (top level only)
       ->  L [model; spec]
         model:  L [hook; L [L [prev hook; L children]]; L log; outcome]
         spec:   L [L [L [used; L children]]; L log; outcome]   (sem from abs of the initial state;
@@ -113,6 +115,15 @@ Fixpoint stmt_of_sx (x : sx) {struct x} : option stmt :=
     end
   end.
 
+Definition top_of_sx (x : sx) : option top :=
+  match x with
+  | L [A 3; a; b] => match nat_of_sx a, nat_of_sx b with
+                     | Some a', Some b' => Some (TCopy a' b')
+                     | _, _ => None
+                     end
+  | _ => option_map TStmt (stmt_of_sx x)
+  end.
+
 Definition sx_outcome (o : outcome) : sx :=
   match o with
   | Normal => L [A 0]
@@ -123,11 +134,11 @@ Definition sx_outcome (o : outcome) : sx :=
 Definition run_c17 (x : sx) : sx :=
   match x with
   | L [A 1; h; ks; p] =>
-    match hook_of_sx h, list_of_sx (list_of_sx child_of_sx) ks, list_of_sx stmt_of_sx p with
+    match hook_of_sx h, list_of_sx (list_of_sx child_of_sx) ks, list_of_sx top_of_sx p with
     | Some h', Some ks', Some p' =>
       let n := length ks' in
       let s0 := init_state h' (fun u => nth u ks' []) in
-      let (s1, o) := run p' s0 in
+      let (s1, o) := run_top p' s0 in
       let model :=
         L [sx_hook (hook_ s1);
            L (map (fun u => L [sx_hook (prev s1 u); sx_list sx_child (children s1 u)]) (seq 0 n));
@@ -138,7 +149,7 @@ Definition run_c17 (x : sx) : sx :=
         | HNone => L []
         | HBase | HTag _ =>
           let r := match h' with HTag t => RTag t | _ => RBase end in
-          let (x1, o') := sem r p' (abs s0) in
+          let (x1, o') := sem_top r p' (abs s0) in
           L [L (map (fun u => L [sx_bool (used x1 u); sx_list sx_child (kids x1 u)]) (seq 0 n));
              sx_list sx_dval (slog x1);
              sx_outcome o']
